@@ -41,6 +41,9 @@ pub enum AddMode {
     MalformedSig,
     /// keep the request until released
     Hold,
+    /// a subscription error until the client has registered again, a receipt from then on (a real tower
+    /// whose subscription has run out)
+    SubErrUntilReg,
 }
 
 #[derive(Clone, Debug, PartialEq, Eq)]
@@ -76,6 +79,8 @@ pub struct TState {
     pub start: u32,
     pub expiry: u32,
     pub accepted: Vec<String>,
+    /// a `register` request has been answered with a receipt since `add` was last set
+    pub renewed: bool,
 }
 
 pub struct FakeTower {
@@ -149,6 +154,8 @@ pub fn add_reply(idx: u32, st: &mut TState, mode: &AddMode, req: &Value) -> (u32
     let _ = sk;
     match mode {
         AddMode::Accept | AddMode::Hold => (200, signed(idx, st)),
+        AddMode::SubErrUntilReg if st.renewed => (200, signed(idx, st)),
+        AddMode::SubErrUntilReg => (401, serde_json::to_vec(&json!({"error": "subscription expired", "error_code": teos_common::errors::INVALID_SIGNATURE_OR_SUBSCRIPTION_ERROR})).unwrap()),
         AddMode::BadSig => (200, signed(6, st)),
         AddMode::MalformedSig => {
             let mut v: Value = serde_json::from_slice(&signed(idx, st)).unwrap();
@@ -179,6 +186,9 @@ fn reg_reply(idx: u32, st: &mut TState, req: &Value) -> (u32, Vec<u8>) {
         };
         serde_json::to_vec(&resp).unwrap()
     };
+    if !matches!(st.reg, RegMode::NonJson | RegMode::ApiError) {
+        st.renewed = true;
+    }
     match st.reg.clone() {
         RegMode::Accept => {
             st.slots += 100;
@@ -210,7 +220,7 @@ impl FakeTower {
             }
         };
         listener.set_nonblocking(true).unwrap();
-        let st = Arc::new(Mutex::new(TState { add: AddMode::Accept, once: vec![], reg: RegMode::Accept, down: false, log: vec![], held: vec![], slots: 0, start: 100, expiry: 200, accepted: vec![] }));
+        let st = Arc::new(Mutex::new(TState { add: AddMode::Accept, once: vec![], reg: RegMode::Accept, down: false, log: vec![], held: vec![], slots: 0, start: 100, expiry: 200, accepted: vec![], renewed: false }));
         let stop = Arc::new(AtomicBool::new(false));
         let (st2, stop2) = (st.clone(), stop.clone());
         let thread = std::thread::spawn(move || {
